@@ -80,6 +80,14 @@ class C22(LLCheck):
                     ops += ["timeout"] * rng.randrange(0, max(1, min(n, 5))) + ["ev 0"] + ["timeout"] * min(n, 70) + ["st"]
                     cases.append(mk("supervision", v, ops))
                 cases.append(mk("attempt", v, ["run", connect_ind(sca=sca, interval=rng.choice([6, 24, 800]), timeout=rng.choice([100, 3200]))] + ["timeout"] * 7 + ["st"]))
+            # 2b. every sleep clock accuracy field 0..7 of the CONNECT_IND with anchors 0.5 s .. 16 s apart (long interval, latency,
+            #     missed events), so that a table entry that is off by a few ppm moves the window by more than the 1 us slack of the
+            #     `window` clause (5 ppm x 0.5 s = 2.5 us); the monitor's table is the Core's, as a literal
+            for sca in range(8):
+                for (iv, la, to) in [(400, 0, 600), (800, 3, 3200), (3200, 0, 3200), (1600, 1, 3200)]:
+                    ops = connected(None, interval=iv, latency=la, timeout=to, sca=sca, winsize=1, winoffset=0)
+                    ops += ["ev 0", "timeout", "ev 0", "ev 2", "timeout", "timeout", "ev 0", "st"]
+                    cases.append(mk("sca", v, ops))
             # 3. missed-event patterns and latency (event flags decide whether events are skipped)
             per = 80 if not ctx.thorough else 600
             for k in range(per):
